@@ -235,7 +235,7 @@ def run_shard(ctx, spec):
 
 
 def plan(tier, seed):
-    n = 400 if tier == "quick" else 4000
+    n = 400 if tier == "quick" else 10000
     return [("collisions", i, 8) for i in range(8)] + [("generated", n // 16, i) for i in range(16)] + [("duplicates", 0)]
 
 
